@@ -462,8 +462,9 @@ func (l *lexer) scanString(start int) (int, string) {
 				}
 				return tokString, str
 			default:
-				l.offset = i + 1
-				l.token = l.source[l.offset-2 : l.offset]
+				_, size := utf8.DecodeRuneInString(l.source[i:])
+				l.offset = i + size
+				l.token = l.source[i-1 : l.offset]
 				return tokInvalidEscapeSequence, ""
 			}
 		case '"':
